@@ -304,7 +304,10 @@ def run_case(spec):
     tier = os.environ.get("VERIF_TIER", "quick")
     with core.Scratch() as tmp:
         case = behave.Case(spec["pseed"], "binding", tmp + "/p", p_fstring=0.05, p_star_import=0.03, p_kwonly=0.1,
-                           p_varargs=0.1, p_kwargs=0.05, p_dunder_call=0.3, p_class_comp=0.4, p_multi_global=0.5, unique_names=spec.get("unique", 0))
+                           p_varargs=0.1, p_kwargs=0.05, p_dunder_call=0.3, unique_names=spec.get("unique", 0),
+                           # the newer layouts only where spellings are unique (the clash stratum is noisy enough)
+                           **({"p_class_comp": 0.4, "p_multi_global": 0.5, "p_member_named_like_module": 0.5}
+                              if spec.get("unique") else {}))
         if not case.valid:
             res.ev("discarded_invalid_projects")
             res.outcome("discarded")
@@ -379,7 +382,10 @@ def run_case(spec):
             label = None
             unique = bool(spec.get("unique"))
             ukey = "unique-names" if spec.get("unique") == 1 else "unique-names+class-attribute-spelled-like-global"
-            if old in facts["from_imported_modules"] and (not tok or unique):
+            if tok and unique and any(q.startswith(old + "/") for q in case.files):
+                # witness: a from-import of a submodule is rewritten, a later dotted use is not
+                label = "package-renamed-through-one-of-its-name-tokens"
+            elif old in facts["from_imported_modules"] and (not tok or unique):
                 # a module (renamed as a resource, or through any of its name tokens)
                 label = "module-imported-with-from-package-import-module"
             elif unique and tok and old in facts["super_call_keywords"]:
